@@ -87,6 +87,7 @@ inline json expr_tree(const expression_t& e, const Document* doc = nullptr, bool
         }
     } else if (k == Constants::DOT) {
         j["i"] = e.get_index();
+        if (types) j["ts"] = safe_type_str(e.get_type());
     } else if (k == Constants::SYNC) {
         j["sync"] = (int)e.get_sync();
     } else if (k == Constants::VAR_INDEX) {
@@ -120,6 +121,25 @@ inline json err_json(const UTAP::error_t& e)
     try { j["str"] = e.str(); } catch (...) { j["str"] = "<<threw>>"; }
     return j;
 }
+
+// expressions of a function body in source order (statement expressions, conditions, return values)
+struct StmtExprs : public AbstractStatementVisitor
+{
+    std::vector<expression_t> exprs;
+    int32_t visitExprStatement(ExprStatement* s) override { exprs.push_back(s->expr); return 0; }
+    int32_t visitAssertStatement(AssertStatement* s) override { exprs.push_back(s->expr); return 0; }
+    int32_t visitForStatement(ForStatement* s) override { exprs.push_back(s->init); exprs.push_back(s->cond); exprs.push_back(s->step); return s->stat ? s->stat->accept(this) : 0; }
+    int32_t visitWhileStatement(WhileStatement* s) override { exprs.push_back(s->cond); return s->stat ? s->stat->accept(this) : 0; }
+    int32_t visitDoWhileStatement(DoWhileStatement* s) override { int32_t r = s->stat ? s->stat->accept(this) : 0; exprs.push_back(s->cond); return r; }
+    int32_t visitIfStatement(IfStatement* s) override
+    {
+        exprs.push_back(s->cond);
+        if (s->trueCase) s->trueCase->accept(this);
+        if (s->falseCase) s->falseCase->accept(this);
+        return 0;
+    }
+    int32_t visitReturnStatement(ReturnStatement* s) override { if (!s->value.empty()) exprs.push_back(s->value); return 0; }
+};
 
 struct Dumper
 {
@@ -171,6 +191,13 @@ struct Dumper
             }
             fj["locals"] = lv;
             try { std::ostringstream os; if (f.body) { f.print(os); } fj["text"] = os.str(); } catch (const std::exception& e) { fj["text"] = std::string("<<threw ") + e.what(); }
+            if (trees && f.body) {
+                StmtExprs se;
+                try { f.body->accept(&se); } catch (...) {}
+                json ea = json::array();
+                for (auto& e : se.exprs) ea.push_back(expr_tree(e, &doc, true));
+                fj["exprs"] = ea;
+            }
             funs.push_back(fj);
             if (f.uid.get_data() != &f) bad("function is not the user object of its symbol", where + "/fun:" + f.uid.get_name());
         }
